@@ -736,3 +736,37 @@ def impl_brackets(case, scratch):
         t2 = ctx.parse(w)
         outs.append({"w": w, "tree": _tree(t2)})
     return {"outcome": "ok", "outs": outs}
+
+
+# ---------------------------------------------------------------- C12
+def _xml_escape(s):
+    return s.replace("&", "&amp;").replace("<", "&lt;").replace(">", "&gt;")
+
+
+def write_dump(path, pages):
+    import bz2
+    out = ['<mediawiki xmlns="http://www.mediawiki.org/xml/export-0.10/" version="0.10" xml:lang="en">\n<siteinfo><sitename>T</sitename></siteinfo>\n']
+    for i, p in enumerate(pages):
+        out.append("<page>\n<title>%s</title>\n<ns>%d</ns>\n<id>%d</id>\n" % (_xml_escape(p["title"]), p["ns"], i + 1))
+        if p.get("redirect") is not None:
+            out.append('<redirect title="%s" />\n' % _xml_escape(p["redirect"]).replace('"', "&quot;"))
+        out.append("<revision><id>%d</id><model>%s</model><format>text/x-wiki</format>" % (i + 100, p["model"]))
+        out.append('<text bytes="%d" xml:space="preserve">%s</text></revision>\n</page>\n' % (len(p["text"]), _xml_escape(p["text"])))
+    out.append("</mediawiki>\n")
+    with bz2.open(path, "wt", encoding="utf-8", newline="") as f:
+        f.write("".join(out))
+
+
+def impl_c12(case, scratch):
+    from wikitextprocessor.dumpparser import parse_dump_xml, add_default_templates
+    ctx = new_ctx(scratch, lang_code=case.get("lang", "en"))
+    try:
+        path = os.path.join(scratch, "dump%d_%d.xml.bz2" % (os.getpid(), next(_counter)))
+        write_dump(path, case["pages"])
+        parse_dump_xml(ctx, path, set(case["nsset"]))
+        add_default_templates(ctx)
+        os.unlink(path)
+        rows = [[p.title, p.namespace_id, p.redirect_to, p.body, p.model] for p in ctx.get_all_pages()]
+        return {"outcome": "ok", "rows": rows}
+    finally:
+        close_ctx(ctx)
